@@ -733,6 +733,13 @@ def run_c01(pid, tier, rep, deadline_s):
     rep.coverage = merge_cov(cov, {'states': totals['cases'], 'transitions': totals['checks'], 'traces_validated_against_impl': totals['cases'], 'samples': samples, 'evaluations': totals['cases'], 'distinct_nontrivial': extra.get('accepted', 0), 'bounds': bounds,
                                    'exhaustive': all(b['completed'] for b in bounds), 'rule': 'Compiled part: grammars in which two different terms carry the same display name, and in which a term is named like a nonterminal; each rule must refer to the object that was written (every input up to the bound against a hand-written recogniser of the rules as written).'})
 
+def run_c16(pid, tier, rep, deadline_s):
+    q = tier == 'quick'
+    run_gram(pid, tier, rep, deadline_s); cov = dict(rep.coverage)
+    totals, samples, bounds, extra = run_progs(pid, rep, [dict(name='c16o', src='c16_order.cpp', args=[5 if q else 7], compilers=['g++'] if q else ['g++', 'clang++'], label='trace lines against the moment of the actions: functors writing into the trace stream, a throwing functor for each rule, inputs<=%d' % (5 if q else 7))], deadline_s)
+    rep.coverage = merge_cov(cov, {'states': totals['cases'], 'transitions': totals['checks'], 'traces_validated_against_impl': totals['cases'], 'samples': samples, 'evaluations': totals['cases'], 'distinct_nontrivial': totals['cases'], 'bounds': bounds,
+                                   'exhaustive': all(b['completed'] for b in bounds), 'rule': 'Compiled part: every functor writes a line into the stream that receives the verbose trace, and for each rule in turn its functor throws; on every input up to the bound the line announcing a reduction must precede the effects of that reduction\'s functor, no later trace line may appear before them, announced reductions and functor calls must match one to one, and a parse left by an exception must have announced the reduction whose functor threw.'})
+
 def run_c18(pid, tier, rep, deadline_s):
     run_gram(pid, tier, rep, deadline_s); cov = dict(rep.coverage)
     totals, samples, bounds, extra = run_progs(pid, rep, [dict(name='c18l', src='c18_long.cpp', label='custom lexer with 5 terms answering lengths 1..200000 (one-dimensional sweep): slices, positions and match() requests'),
@@ -885,6 +892,7 @@ def dispatch(pid, tier, rep, deadline):
         if pid == 'C08': run_c08(pid, tier, rep, deadline)
         elif pid == 'C05': run_c05(pid, tier, rep, deadline)
         elif pid == 'C01': run_c01(pid, tier, rep, deadline)
+        elif pid == 'C16': run_c16(pid, tier, rep, deadline)
         elif pid == 'C18': run_c18(pid, tier, rep, deadline)
         elif pid == 'C02': run_c02(pid, tier, rep, deadline)
         elif pid == 'C09': run_c09(pid, tier, rep, deadline)
